@@ -12,7 +12,7 @@ Failure keys. The class of the failing INPUT (computed by the oracle's own walk,
   all other inputs, one key per clause:
     bounded:C13:fragment-exception | fragment-selected | fragment-elsewhere | fragment-not-idempotent
     bounded:C13:filter-exception | filter-not-subdocument | filter-not-restriction
-    bounded:C13:chain-exception | chain-not-sequential
+    bounded:C13:chain-exception | chain-not-sequential | chain-fragment-lost
   any input: bounded:C13:fragment-mutates-input | filter-mutates-input | chain-mutates-old | patch-mutates-input
   patch, inputs where an array present in both documents differs: bounded:C13:patch-array (which of the two clauses fails
   there depends on PYTHONHASHSEED: jsonpatch iterates sets of keys); inputs (arrays equal) where an object of old and an
@@ -376,14 +376,25 @@ def check_filter(doc, filters):
     return out, nontrivial
 
 
+def _related(a, b):
+    """one concrete path is a prefix of (or equal to) the other"""
+    n = min(len(a), len(b))
+    return a[:n] == b[:n]
+
+
 PATH1, PATH2 = "/etc/sonic/config_db.json", "/etc/other.json"
+RELOAD_PRIOS = [0, 50, 100, 200]
 
 
 def check_chain(old_files, gens, safe):
-    """gens: list of dict(path, acl, acl_safe, config); old_files: {path: doc or None}"""
+    """gens: list of dict(path, acl, acl_safe, config[, reload_prio, reload]); old_files: {path: doc or None}.
+    The statement says nothing about which reload command wins, so reload_prio / reload are only VARIED (the merged
+    document must not depend on them); checked: (a) chained document == sequential application, (b) every generator's
+    fragment inside its own pointers when no later generator of the file touches them."""
     cnt = Info()
     info = Info()
     exp = {}
+    touched = []        # per generator: (path, pats, concrete paths its patterns select before / after its step and in its fragment)
     for g in gens:
         p = g["path"]
         if p not in exp:
@@ -394,13 +405,15 @@ def check_chain(old_files, gens, safe):
         nxt = merge(exp[p], g["config"], pats, cnt)
         if not jeq(sel_values(nxt, pats), sel_values(g["config"], pats)):
             raise AssertionError("oracle: unsatisfiable chain step %r" % (g,))
+        touched.append((p, pats, set(sel(exp[p], pats)) | set(sel(nxt, pats)) | set(sel(g["config"], pats))))
         exp[p] = nxt
     old0 = copy.deepcopy(old_files)
     res = RunGeneratorResult()
     for i, g in enumerate(gens):
         res.add_json_fragment(GeneratorJSONFragmentResult(
             name="G%d" % i, tags=[], path=g["path"], acl=list(g["acl"]), acl_safe=list(g["acl_safe"]),
-            config=copy.deepcopy(g["config"]), reload="reload %d" % i, perf=None, reload_prio=100 + i))
+            config=copy.deepcopy(g["config"]), reload=g.get("reload", "reload %d" % i), perf=None,
+            reload_prio=g.get("reload_prio", 100 + i)))
     out = []
     try:
         files = res.new_json_fragment_files(old_files, safe=safe)
@@ -410,6 +423,22 @@ def check_chain(old_files, gens, safe):
     if not jeq(got, exp):
         out.append((info.key("chain", "not-sequential"),
                     "new_json_fragment_files differs from merging the fragments one after another", exp, got))
+    # (b) generator i's fragment inside its own pointers, if the pointers of the later generators of that file are disjoint
+    for i, g in enumerate(gens):
+        p, pats, _own = touched[i]
+        mine = set(sel(exp[p], pats)) | set(sel(g["config"], pats))
+        later = set()
+        for (pj, _pj, sj) in touched[i + 1:]:
+            if pj == p:
+                later |= sj
+        if any(_related(a, b) for a in mine for b in later):
+            continue
+        want, have = sel_values(g["config"], pats), sel_values(got.get(p, {}), pats)
+        if not jeq(want, have):
+            out.append((info.key("chain", "fragment-lost"),
+                        "generator %d (reload_prio %s): the chained document restricted to its pointers differs from its fragment "
+                        "restricted to them (no later generator touches them)" % (i, g.get("reload_prio", 100 + i)), want, have))
+            break
     if not jeq(old_files, old0):
         out.append(("bounded:C13:chain-mutates-old", "new_json_fragment_files mutates old_files", old0, old_files))
     return out, (cnt.matched >= 2 and len(gens) >= 2)
@@ -514,11 +543,6 @@ def cases(tier, seed, part, nparts):
     for j in range(n):
         k = rnd.randint(2, 3)
         two = rnd.random() < 0.3
-        gens = []
-        for _ in range(k):
-            gens.append(dict(path=PATH2 if (two and rnd.random() < 0.4) else PATH1,
-                             acl=rnd.choice(acls), acl_safe=rnd.choice(acls),
-                             config=rnd.choice(news) if rnd.random() < 0.5 else random_doc(rnd)))
         old_files = {}
         for p in (PATH1, PATH2):
             r = rnd.random()
@@ -526,6 +550,17 @@ def cases(tier, seed, part, nparts):
                 old_files[p] = rnd.choice(olds) if rnd.random() < 0.5 else random_doc(rnd)
             elif r < 0.85:
                 old_files[p] = None
+        gens = []
+        for gi in range(k):
+            path = PATH2 if (two and rnd.random() < 0.4) else PATH1
+            r = rnd.random()
+            if r < 0.2 and isinstance(old_files.get(path), dict):
+                config = copy.deepcopy(old_files[path])     # a generator that (at least as the first one) changes nothing
+            else:
+                config = rnd.choice(news) if r < 0.6 else random_doc(rnd)
+            # reload priority / command per generator: all orders (increasing, equal, strictly decreasing) occur
+            gens.append(dict(path=path, acl=rnd.choice(acls), acl_safe=rnd.choice(acls), config=config,
+                             reload_prio=rnd.choice(RELOAD_PRIOS), reload=rnd.choice(["", "reload A", "reload %d" % gi])))
         c = dict(kind="chain", old_files=old_files, gens=gens, safe=rnd.random() < 0.3)
         if j % nparts == part:
             yield None, c
@@ -559,7 +594,9 @@ def run(tier="quick", seed=0, part=0, nparts=1):
              "shapes^2 (2 value variants, 1/%d), all arrays^2 x 2 surroundings, random, and all pairs of 64 documents whose object "
              "members T/a|1/p and s range over {1,true,1.0,0,false,'x',null,absent} (JSON-type-strict comparison; arrays "
              "unchanged there) + random typed documents; filter: shapes x lists (1/%d) + random; "
-             "chain: random 2..3 generators over 1..2 files, safe/unsafe. Patterns never select array elements (arrays are "
+             "chain: random 2..3 generators over 1..2 files, safe/unsafe, reload_prio per generator from {0,50,100,200} (any "
+             "order), reload command varied, some generators changing nothing; checked: == sequential application and each "
+             "generator's fragment inside its own pointers when later ones are disjoint. Patterns never select array elements (arrays are "
              "values). non-trivial: fragment = something "
              "selected and result differs from both old and fragment; patch = old != new, both non-empty; filter = selected, "
              "proper sub-document; chain = >= 2 generators with >= 2 selections. distinct by enumeration index / content hash"
